@@ -454,6 +454,8 @@ INT_SPELLINGS = ['0', '7', '-7', '+7', '007', '017', '0o17', '0x1F', '0x1f', '-0
                  '2001-1-2t3:4:5.25 +01:30', '2001-13-45', '2001-02-30', '!!timestamp 2001-01-01',
                  '!!timestamp x', '"2001-01-01"', '1.5', '.5', '5.', '1e5', '-.inf', '.NaN', '+.INF',
                  '1.0e+22', '1E-3', 'true', 'True', 'TRUE', 'false', 'False', 'FALSE',
+                 '!!binary aGk=', '!Local x', '!Postcode 1098 XG', '! x', '<<', '=', '!!merge x',
+                 '!!value x', '!!omap x', '!!python/name:os.getcwd ""', '!!set ""',
                  'a', 'a b', '"a\\nb"', '|\n  lit\n', '>\n  folded\n', '[1]', '{a: 1}']
 
 
